@@ -73,6 +73,51 @@ def main():
             key, what = KNOWN_DIAG.get(inf["diag"], ("planner-other", "uncertified"))
             if not c.violation(key, what + f": {float(got)} instead of {float(want)}", repl): stats["ship_wrong_known"] += 1
     c.sample({"convert": cases[0], "result": r["results"][0].get("m")}); c.sample({"convert": cases[7], "result": r["results"][7].get("m") or r["results"][7].get("err")})
+    # ---------------- conversions the exact model leaves out (a prefix mixing bases: an SI prefix on the byte = 2^3 bit, kilo x kibi):
+    # judged against the SAME conversion between the unprefixed base-unit products -- which the model above covers -- scaled by the
+    # prefix factors of the oracle; the planner never sees the prefixes, so planner defects cancel and only the prefix handling is compared
+    atom_name = {i: n for i, _d, n in exp0["env"]}
+    oom = [i for i, (cs, res) in enumerate(zip(cases, r["results"])) if i not in info and "setup_err" not in res]
+    fixed_mixed = [([["pico", "byte", 1]], [[None, "bit", 1]]), ([["micro", "joule", 1], ["kibi", "byte", -1]], [[None, "joule", 1], [None, "bit", -1]]),
+                   ([["milli", "watt", 1], ["mebi", "bit", -1]], [[None, "watt", 1], [None, "bit", -1]]), ([[None, "watt", 1], [None, "bit", -1]], [["milli", "watt", 1], ["mebi", "bit", -1]]),
+                   ([["nano", "joule", 1], ["gibi", "byte", -1]], [["pico", "joule", 1], [None, "bit", -1]]), ([["kilo", "byte", 1]], [["kibi", "bit", 1]]),
+                   ([["femto", "byte", 2]], [["atto", "bit", 2]]), ([["kibi", "meter", 1], ["milli", "second", -1]], [["kilo", "foot", 1], [None, "second", -1]])]
+    mixed_cases = [cases[i] for i in oom]
+    for a_, b_ in fixed_mixed:
+        if all(n in sp.units for _, n, _ in a_ + b_) and all(p_ is None or p_ in sp.prefixes for p_, _, _ in a_ + b_):
+            for m_ in (["int", "1", "1"], ["float", "7", "2"], ["int", "-3", "1"]):
+                mixed_cases.append({"op": "in_unit", "a": {"m": m_, "u": a_}, "b": b_})
+    def twin(spec):
+        coef, f, _ = sp.spec_unit(spec)
+        return coef, [[None, atom_name[k], x] for k, x in sorted(f.items())]
+    twins = []
+    for cs in mixed_cases:
+        (ca, ta), (cb, tb) = twin(cs["a"]["u"]), twin(cs["b"])
+        twins.append((ca, cb, {"op": "in_unit", "a": {"m": cs["a"]["m"], "u": ta}, "b": tb}))
+    rm = impl("convsys_worker.py", {"systems": True, "cases": mixed_cases + [t for _, _, t in twins]})["results"]
+    stats["mixed_prefix"] = 0
+    for cs, (ca, cb, tw), res, rt in zip(mixed_cases, twins, rm[:len(mixed_cases)], rm[len(mixed_cases):]):
+        if "setup_err" in res or "setup_err" in rt: continue
+        c.count({"mixed": cs}, nontrivial=True)
+        repl = {"table": "shipped", "convert": cs, "implementation": {k: res.get(k) for k in ("m", "err", "same_unit")},
+                "unprefixed_twin": tw, "twin_implementation": {k: rt.get(k) for k in ("m", "err")}, "prefix_factors": [float(ca), float(cb)]}
+        if "err" in res or "err" in rt:
+            if res.get("err") != rt.get("err"):
+                if res.get("err") not in (None, "ConversionNotFound"):
+                    c.violation(f"exception:{res['err']}", f"conversion between prefixed units raised {res['err']} (between the unprefixed products: {rt.get('err') or 'a value'})", repl)
+                else:
+                    c.violation("prefix-handling", f"prefixed conversion gives {res.get('err') or 'a value'}, the unprefixed products give {rt.get('err') or 'a value'}", repl)
+            continue
+        if len(res["m"]) != 3 or len(rt["m"]) != 3: continue
+        if not res.get("same_unit"):
+            c.violation("result-unit", "the result does not carry the requested unit object", repl); continue
+        want = frac(rt["m"]) * ca / cb; got = frac(res["m"])
+        if want != 0 and not (Fraction(1, 10**150) < abs(want) < Fraction(10**150)): continue
+        if frac(cs["a"]["m"]) * ca != 0 and not (Fraction(1, 10**150) < abs(frac(cs["a"]["m"]) * ca) < Fraction(10**150)): continue
+        stats["mixed_prefix"] += 1
+        if abs(got - want) > Fraction(1, 10**9) * abs(want) or (want == 0) != (got == 0):
+            repl["oracle"] = {"want": float(want), "got": float(got)}
+            c.violation("wrong-value", f"converted magnitude {float(got)}; the unprefixed conversion scaled by the prefix factors gives {float(want)}", repl)
     # ---------------- synthetic exactly-consistent systems
     nsys, nper = (10, 60) if quick else (80, 150)
     jobs = []
